@@ -2,6 +2,7 @@ import ScVerif.Base.Line
 import ScVerif.C20.Mode
 import ScVerif.C20.EnterLeave
 import ScVerif.C20.Meter
+import ScVerif.C20.Esc
 /-! Driver ops of the Mode (`mode.seq`), EnterLeave (`el.seq`) and Meter (`meter.seq`) models. -/
 namespace ScVerif.C20
 open ScVerif.Line
@@ -15,22 +16,22 @@ def parseModes? (s : String) : Option (List ModeDef) :=
   if s = "-" then some []
   else (s.splitOn "/").mapM (fun part =>
     match part.splitOn ":" with
-    | [n, vs] => some ⟨n, decListC vs⟩
+    | [n, vs] => some ⟨unesc n, (decListC vs).map unesc⟩
     | _ => none)
 
 def showModes (ms : List ModeDef) : String :=
   if ms.isEmpty then "-"
-  else "/".intercalate (ms.map (fun m => m.name ++ ":" ++ (if m.values.isEmpty then "-" else ",".intercalate m.values)))
+  else "/".intercalate (ms.map (fun m => esc m.name ++ ":" ++ (if m.values.isEmpty then "-" else ",".intercalate (m.values.map esc))))
 
 def parseKV? (s : String) : Option (List (String × String)) :=
   (decListC s).mapM (fun kv =>
     match kv.splitOn "=" with
-    | [k, v] => some (k, v)
+    | [k, v] => some (unesc k, unesc v)
     | _ => none)
 
 def showValues (vs : Values) : String :=
   let sorted := vs.mergeSort (fun a b => decide (a.1 ≤ b.1))
-  if sorted.isEmpty then "-" else ",".intercalate (sorted.map (fun kv => kv.1 ++ "=" ++ kv.2))
+  if sorted.isEmpty then "-" else ",".intercalate (sorted.map (fun kv => esc kv.1 ++ "=" ++ esc kv.2))
 
 def parseReq? (s : String) : Option Request :=
   match s.splitOn "|" with
